@@ -28,6 +28,37 @@ def canon(e):
     return e
 
 
+def resolve_capture(prog, g, idx, depth=0):
+    """the value closure g captures as its idx-th upvar, as an expression of the outermost
+    enclosing function (through nested closures); None when not resolved"""
+    parent = prog.fns.get(g.d.get("parent"))
+    if parent is None or depth > 4:
+        return None
+    ps = Sym(parent)
+    for b, blk in enumerate(parent.blocks):
+        if blk["c"]:
+            continue
+        for j, st in enumerate(blk["s"]):
+            if st[0] == "a" and st[2][0] == "agg" and st[2][1] == "closure" and st[2][2] == g.id:
+                ops = st[2][4]
+                if idx >= len(ops):
+                    return None
+                e = ps.operand(ops[idx], (b, j))
+                for _ in range(6):
+                    if e[0] in ("ref", "deref"):
+                        e = e[1]
+                    elif e[0] == "cast":
+                        e = e[2]
+                    else:
+                        break
+                e = canon(e)
+                if parent.kind == "closure" and e[0] == "field" and e[1][0] == "param" and e[1][1] == 1 \
+                        and isinstance(e[2], int):
+                    return resolve_capture(prog, parent, e[2], depth + 1)
+                return e
+    return None
+
+
 def split_impls(prog):
     out = []
     for tr in ("image_view::ImageView", "image_view::ImageViewMut"):
@@ -294,7 +325,12 @@ def offsets(rep, prog, rule):
             if e[2] == name:
                 return True
             if isinstance(e[2], int) and e[1][0] == "param" and e[1][1] == 1 and e[2] < len(caps):
-                return caps[e[2]][0].endswith("self." + name)
+                if caps[e[2]][0].endswith("self." + name):
+                    return True
+                # a local of the method captured by value: what it holds there
+                r = resolve_capture(prog, g, e[2])
+                return r is not None and r[0] == "field" and r[2] == name and r[1][0] == "param" \
+                    and r[1][1] == 1
             return False
 
         def part_extent(e, ax):
